@@ -245,6 +245,7 @@ class State:
     def __init__(s):
         s.pc, s.status, s.events, s.heap, s.calls, s.blocks, s.visits = [], {}, [], {}, 0, {}, {}
         s.notes = {}
+        s.vid = None      # number of values produced by caller code so far (z3 term; ledger index into the virtual array V)
 
     def clone(s):
         t = State()
@@ -252,6 +253,7 @@ class State:
         t.blocks = dict(s.blocks)
         t.visits = dict(s.visits)
         t.notes = dict(s.notes)
+        t.vid = s.vid
         t.heap = {k: deep(v) for k, v in s.heap.items()}
         return t
 
@@ -313,6 +315,8 @@ class Exec:
         s.self_binding = None    # for trait default bodies: what `Self` is ('GenericArray' / '&GenericArray' ...)
         s.unwind_edges = 0
         s.consts = {}
+        s.inductive = {'': False, '1': True, 'strict': 'strict'}.get(os.environ.get('MIRSYM_INDUCTIVE', ''), False)   # False | True (fall back to unrolling) | 'strict'
+        s.inductive_used = s.inductive_failed = 0
         s.solver_timeout_ms = int(os.environ.get('MIRSYM_SOLVER_TIMEOUT_MS', '60000'))
         s._src = {}
         for name, lst in fns.items():
@@ -500,8 +504,13 @@ class Exec:
         """caller-supplied code returned a fresh owned value: element #calls of the virtual array"""
         st.calls += 1
         k = st.calls
-        st.status[s.V] = z3.If(s.J == bv(k), HELD, s.stat(st, s.V))
-        return k, Elem(s.V, bv(k))
+        vid = s.next_vid(st)
+        st.status[s.V] = z3.If(s.J == vid, HELD, s.stat(st, s.V))
+        return k, Elem(s.V, vid)
+
+    def next_vid(s, st):
+        st.vid = (bv(0) if st.vid is None else st.vid) + 1
+        return st.vid
 
     # ---------------------------------------------------------------- places
     def parse_place(s, t):
@@ -928,12 +937,216 @@ class Exec:
         s2.events.append('  ^%s panicked (call #%d)' % (label, k))
         s.unwind_edges += 1
         if returns_value:
-            st.status[s.V] = z3.If(s.J == bv(k), HELD, s.stat(st, s.V))
-            return [(st, 'ret', Elem(s.V, bv(k))), (s2, 'unwind', None)]
+            vid = s.next_vid(st)
+            st.status[s.V] = z3.If(s.J == vid, HELD, s.stat(st, s.V))
+            return [(st, 'ret', Elem(s.V, vid)), (s2, 'unwind', None)]
         return [(st, 'ret', UNIT), (s2, 'unwind', None)]
+
+    # ---------------------------------------------------------------- loop summary by an auto-checked invariant template
+    def _leaf_pairs(s, a, b, path=()):
+        """walk two values of identical shape; yield (path, leaf_a, leaf_b); raise ValueError if the shapes differ"""
+        if z3.is_expr(a) or z3.is_expr(b):
+            if not (z3.is_expr(a) and z3.is_expr(b)) or a.sort() != b.sort():
+                raise ValueError('sort change at %s' % (path,))
+            yield (path, a, b)
+        elif isinstance(a, dict) and isinstance(b, dict):
+            if set(a) != set(b):
+                raise ValueError('keys change at %s' % (path,))
+            for k in a:
+                if k == '__closure__':
+                    if a[k] != b[k]:
+                        raise ValueError('closure change')
+                    continue
+                yield from s._leaf_pairs(a[k], b[k], path + (k,))
+        elif isinstance(a, Enum) and isinstance(b, Enum):
+            if a.variant != b.variant:
+                raise ValueError('enum variant change at %s' % (path,))
+            yield from s._leaf_pairs(a.fields, b.fields, path)
+        elif isinstance(a, Slice) and isinstance(b, Slice):
+            if a.arr is not b.arr:
+                raise ValueError('slice object change')
+            yield (path + ('start',), a.start, b.start)
+            yield (path + ('end',), a.end, b.end)
+        elif isinstance(a, (ElemPtr, Elem)) and type(a) is type(b):
+            if a.arr is not b.arr:
+                raise ValueError('pointer object change')
+            yield (path + ('idx',), a.idx, b.idx)
+        elif isinstance(a, Ref) and isinstance(b, Ref):
+            if a.cell != b.cell or a.path != b.path:
+                raise ValueError('reference change')
+        elif isinstance(a, ArrRef) and isinstance(b, ArrRef):
+            if a.arr is not b.arr:
+                raise ValueError('array reference change')
+        elif a is b or (isinstance(a, Opaque) and isinstance(b, Opaque) and a.tag == b.tag) or a == b:
+            return
+        elif a is None and b is None:
+            return
+        else:
+            raise ValueError('value change at %s: %r -> %r' % (path, a, b))
+
+    def _subst_leaves(s, v, repl, path=()):
+        """copy of v with the z3 leaves listed in repl (path -> new term) replaced"""
+        if z3.is_expr(v):
+            return repl.get(path, v)
+        if isinstance(v, dict):
+            return {k: (x if k == '__closure__' else s._subst_leaves(x, repl, path + (k,))) for k, x in v.items()}
+        if isinstance(v, Enum):
+            return Enum(v.variant, s._subst_leaves(v.fields, repl, path))
+        if isinstance(v, Slice):
+            return Slice(v.arr, repl.get(path + ('start',), v.start), repl.get(path + ('end',), v.end), v.stride)
+        if isinstance(v, ElemPtr):
+            return ElemPtr(v.arr, repl.get(path + ('idx',), v.idx), v.cast)
+        if isinstance(v, Elem):
+            return Elem(v.arr, repl.get(path + ('idx',), v.idx))
+        return v
+
+    def _uniq_state(s, st, term):
+        for cand in (UNINIT, LIVE, HELD, EXTERN, DROPPED, STORED):
+            so = s._solver()
+            so.add(*st.pc)
+            so.add(term != cand)
+            s.nq += 1
+            if so.check() == z3.unsat:
+                return cand
+        return None
+
+    def for_each_inductive(s, st, ic, cc, where):
+        """Replace the unrolling of `iter.for_each(closure)` by induction over the iteration number K:
+           (1) run iteration 0 to learn what one iteration changes (counters +d, ledger entries at one index);
+           (2) hypothesise Inv(K): counters = entry + K*d, ledger[J] = after-state for the K indices already visited;
+           (3) from Inv(K), K symbolic, run ONE iteration and require Inv(K+1) on every heap cell / ledger entry;
+               the loop exit (next() == None) and every unwind edge are taken from Inv(K).
+           Returns the loop's outcomes, or None if the template does not fit (the caller then falls back to bounded unrolling)."""
+        st0 = st
+        # ---- (1) learn from iteration 0
+        firsts = [x for x in s.iter_next(st0.clone(), ic, (), where) if x[1] == 'some']
+        if len(firsts) != 1:
+            return None
+        s1, _, v = firsts[0]
+        rets = [x for x in s.call_closure2(s1, cc, [v], where) if x[1] == 'ret']
+        if len(rets) != 1:
+            return None
+        st1 = rets[0][0]
+        K = mkint('K%d' % next(State._ids))
+        inv = st0.clone()
+        inv.pc = list(st0.pc)
+        if is_int():
+            inv.pc.append(z3.And(K >= 0, K < TWO64))
+        deltas = {}
+        try:
+            for cell in st0.heap:
+                if cell not in st1.heap:
+                    return None
+                repl = {}
+                for (path, a, b) in s._leaf_pairs(st0.heap[cell], st1.heap[cell]):
+                    if a.eq(b):
+                        continue
+                    if z3.is_bool(a):
+                        return None
+                    d = z3.simplify(b - a)
+                    if not (z3.is_bv_value(d) or z3.is_int_value(d)):
+                        return None
+                    repl[path] = a + K * d
+                    deltas[(cell, path)] = d
+                if repl:
+                    inv.heap[cell] = s._subst_leaves(st0.heap[cell], repl)
+        except ValueError:
+            return None
+        # the iteration number never exceeds what the underlying slice iterators (and a scripted source) can still deliver
+        def walk(v0_, vk_):
+            if isinstance(vk_, dict):
+                if vk_.get('kind') == 'slice':
+                    inv.pc.append(z3.And(ULE(v0_['pos'], vk_['pos']), ULE(vk_['pos'], vk_['end'])))
+                if vk_.get('kind') == 'source' and 'count' in vk_:
+                    inv.pc.append(z3.And(ULE(v0_['yielded'], vk_['yielded']), ULE(vk_['yielded'], vk_['count'])))
+                for k_ in vk_:
+                    if k_ != '__closure__' and isinstance(vk_[k_], (dict, Enum)):
+                        walk(v0_[k_], vk_[k_])
+            elif isinstance(vk_, Enum):
+                walk(v0_.fields, vk_.fields)
+        for cell in st0.heap:
+            if isinstance(inv.heap.get(cell), (dict, Enum)):
+                walk(st0.heap[cell], inv.heap[cell])
+        inv.pc.append(ULT(K, bv(2 ** 63)))
+        # fresh-value counter
+        v0 = bv(0) if st0.vid is None else st0.vid
+        v1 = bv(0) if st1.vid is None else st1.vid
+        dv = z3.simplify(v1 - v0)
+        if not (z3.is_bv_value(dv) or z3.is_int_value(dv)) or dv.as_long() not in (0, 1):
+            return None
+        inv.vid = v0 + K * dv
+        # ledger: one index per array and iteration
+        ledger_t = {}
+        for arr in st1.status:
+            t1, t0 = st1.status[arr], st0.status.get(arr, UNINIT)
+            if t1.eq(t0):
+                continue
+            so = s._solver()
+            so.add(*st1.pc)
+            so.add(t1 != t0)
+            s.nq += 1
+            if so.check() != z3.sat:
+                continue
+            j0 = so.model().eval(s.J, model_completion=True)
+            so.add(s.J != j0)
+            s.nq += 1
+            if so.check() != z3.unsat:
+                return None          # more than one index changes per iteration
+            s1j = st1.clone()
+            s1j.pc.append(s.J == j0)
+            after = s._uniq_state(s1j, t1)
+            if after is None:
+                return None
+            ledger_t[arr] = (j0, after)
+            inv.status[arr] = z3.If(z3.And(UGE(s.J, j0), ULT(s.J, j0 + K)), after, t0)
+        inv.events = list(st0.events) + ['... %s iterations (by induction: counters %s, one element of %s per iteration) ...' % (
+            K, sorted({str(d) for d in deltas.values()}), sorted(a.name for a in ledger_t))]
+        s.discharged.append(('loop invariant template instantiated', where))
+        # ---- (2)+(3) one iteration from Inv(K)
+        out = []
+        for (sa, kk, vv) in s.iter_next(inv, ic, (), where):
+            if kk == 'none':
+                out.append((sa, 'ret', UNIT))
+            elif kk == 'unwind':
+                out.append((sa, 'unwind', None))
+            else:
+                for (sb, k2, _) in s.call_closure2(sa, cc, [vv], where):
+                    if k2 != 'ret':
+                        out.append((sb, 'unwind', None))
+                        continue
+                    # inductiveness: sb must be Inv(K+1)
+                    try:
+                        for cell in st0.heap:
+                            want = {}
+                            for (path, a, b) in s._leaf_pairs(st0.heap[cell], sb.heap[cell]):
+                                d = deltas.get((cell, path))
+                                target = a if d is None else a + (K + 1) * d
+                                if not b.eq(target):
+                                    s.require(sb, b == target, 'loop invariant not inductive (a counter / value does not advance as hypothesised)', where)
+                    except ValueError as e:
+                        raise Inconclusive('loop invariant template: heap shape changes inside the loop (%s)' % e)
+                    s.require(sb, (bv(0) if sb.vid is None else sb.vid) == v0 + (K + 1) * dv, 'loop invariant not inductive (number of values produced per iteration)', where)
+                    for arr in sb.status:
+                        t0 = st0.status.get(arr, UNINIT)
+                        if arr in ledger_t:
+                            j0, after = ledger_t[arr]
+                            target = z3.If(z3.And(UGE(s.J, j0), ULT(s.J, j0 + K + 1)), after, t0)
+                        else:
+                            target = t0
+                        if not sb.status[arr].eq(target):
+                            s.require(sb, sb.status[arr] == target, 'loop invariant not inductive (ownership state of %s after one more iteration)' % arr.name, where)
+        return out
 
     def for_each(s, st, itv, clo, where, fold_init=None, rev=False):
         ic, cc = st.new_cell(itv), st.new_cell(clo)
+        if s.inductive and fold_init is None:
+            res = s.for_each_inductive(st, ic, cc, where)
+            if res is not None:
+                s.inductive_used += 1
+                return res
+            s.inductive_failed += 1
+            if s.inductive == 'strict':
+                raise Inconclusive('loop invariant template does not fit the loop at %s' % where)
         out, work = [], [(st, 0, fold_init)]
         while work:
             st, k, acc = work.pop()
@@ -1092,8 +1305,9 @@ class Exec:
             s2 = st.clone()
             s2.events.append('  ^T::clone panicked (#%d)' % k)
             s.unwind_edges += 1
-            st.status[s.V] = z3.If(s.J == bv(k), HELD, s.stat(st, s.V))
-            return [(st, 'ret', Elem(s.V, bv(k))), (s2, 'unwind', None)]
+            vid = s.next_vid(st)
+            st.status[s.V] = z3.If(s.J == vid, HELD, s.stat(st, s.V))
+            return [(st, 'ret', Elem(s.V, vid)), (s2, 'unwind', None)]
         if re.match(r'MaybeUninit::<GenericArray<MaybeUninit<T>, N>>::uninit', c) or re.match(r'MaybeUninit::<GenericArray<T, N>>::uninit', c):
             st.calls += 1
             return R(Arr('Out%d' % st.calls, s.N))
